@@ -418,6 +418,18 @@ pub fn judge(case: &Case, l: &mut Local) {
         }
         closed &= d3(&c.at_front().point(), &c.at_back().point()) <= 1e-6;
     }
+    // the same cutting plane given by three of its points, counter-clockwise about its normal: same normal, same
+    // offset, hence the same sides
+    {
+        let n = s.plane.normal.into_inner();
+        let o = Point3::from(n * s.plane.d);
+        let u = if n.x.abs() < 0.9 { Vector3::x().cross(&n).normalize() } else { Vector3::y().cross(&n).normalize() };
+        let w = n.cross(&u);
+        let (p1, p2, p3) = (o + u * 0.7 - w * 0.2, o + u * 1.9 + w * 0.4, o - u * 0.3 + w * 1.1);
+        let p3p = Plane3::from((&p1, &p2, &p3));
+        let worst = s.v.iter().map(|q| (p3p.signed_distance_to_point(q) - s.plane.signed_distance_to_point(q)).abs()).fold(0.0, f64::max);
+        l.check("the cutting plane given by three of its points in counter-clockwise order has the same sides", "", worst <= 1e-9 * (1.0 + s.plane.d.abs()), mk, || format!("signed distances differ by up to {:e}", worst));
+    }
     // the same loops walked station by station through the curve's iterator: every vertex once, in order
     let walked = curves.iter().all(|c| {
         let st: Vec<Point3> = c.iter().map(|s| s.point()).collect();
@@ -719,6 +731,25 @@ fn judge_open_chain(item: &Vec<usize>, l: &mut Local) {
     l.eval();
     l.bucket("open chain of section segments in a shuffled order");
     let want: Vec<u32> = (10..=10 + k as u32).collect();
+    // the same path together with a second open path and a closed triangle, its segments listed first, in the
+    // middle and last: three chains come back, whatever was chained before them
+    for place in 0..3usize {
+        let other: Vec<[u32; 2]> = vec![[40, 41], [42, 43], [41, 42], [50, 51], [51, 52], [52, 50]];
+        let mut all: Vec<[u32; 2]> = Vec::new();
+        match place {
+            0 => { all.extend(other.iter().cloned()); all.extend(segs.iter().cloned()); }
+            1 => { all.extend(other[..3].iter().cloned()); all.extend(segs.iter().cloned()); all.extend(other[3..].iter().cloned()); }
+            _ => { all.extend(segs.iter().cloned()); all.extend(other.iter().cloned()); }
+        }
+        if let Ok(ch) = guarded(|| chained_indices(&all)) {
+            let mut got: Vec<Vec<u32>> = ch.clone();
+            got.sort();
+            let has_path = got.iter().any(|c| *c == want);
+            let has_other = got.iter().any(|c| *c == vec![40, 41, 42, 43]);
+            let has_loop = got.iter().any(|c| c.len() == 4 && c[0] == c[3] && c.iter().all(|x| (50..=52).contains(x)));
+            l.check("consecutive section vertices are joined across one face", "several chains", got.len() == 3 && has_path && has_other && has_loop, || json!({"mesh": "open-chain", "pose": 0, "normal": 0, "frac": 0.0, "force": false, "order": item}), || format!("segments {:?}: chains {:?}", all, ch));
+        }
+    }
     match guarded(|| chained_indices(&segs)) {
         Ok(ch) => {
             l.outcome(hash_of(&(ch.len(), k, 19u8)));
